@@ -93,6 +93,7 @@ Section ConsPres.
     - now rewrite conss_proceed.
     - unfold resolver_return. destruct (nth_error (gs s) g) as [x|]; [|exact H]. destruct (gpcv x); exact H.
     - now apply Q_store.
+    - destruct (Nat.eqb c 0); [exact H|]. destruct (cancel_root_frame s c) as [_ [_ [E _]]]. now rewrite E.
   Qed.
 End ConsPres.
 
